@@ -326,6 +326,26 @@ pub fn simpson_nodes(divs: usize) -> Vec<f64> {
   (0..=d).map(|i| -1.0 + (i as f64) * dx).collect()
 }
 
+/// Σ|f(x_i)| w_i · dx/3 · ½ over the Simpson nodes: the absolute sum behind the z-integral
+pub fn simpson_abs_scale(spdc: &SPDC, ws: f64, wi: f64, divs: usize) -> Option<f64> {
+  let nodes = simpson_nodes(divs);
+  if nodes.is_empty() {
+    return None;
+  }
+  let d = nodes.len() - 1;
+  let dx = (1.0 - (-1.0)) / (d as f64);
+  let s2 = spdc.clone();
+  guard(move || {
+    let f = get_pm_integrand(w(ws), w(wi), &s2);
+    let mut acc = 0.0;
+    for (i, &z) in nodes.iter().enumerate() {
+      let wgt = if i == 0 || i == d { 1.0 } else if i % 2 == 1 { 4.0 } else { 2.0 };
+      acc += f(z).norm() * wgt;
+    }
+    0.5 * (acc * (dx / 3.0))
+  })
+}
+
 fn cx(z: Complex<f64>) -> String {
   format!("{} {}", fl(z.re), fl(z.im))
 }
@@ -465,25 +485,37 @@ fn k_cases(ctx: &mut Ctx) {
         None => ctx.count("k/pm_integrand/panic"),
       }
       // z-integral
-      let divs = *ctx.rng.pick(&[50usize, 50, 6, 7, 20, 33, 100, 130, 200, 5, 4, 3]);
+      let divs = *ctx.rng.pick(&[50usize, 50, 50, 6, 7, 20, 33, 100, 130, 200, 50, 16, 10, 5, 4, 3]);
       let nodes = simpson_nodes(divs);
       let tab = apod_table(&spdc, &nodes);
       let s2 = spdc.clone();
       let out = guard(move || {
         phasematch_fiber_coupling(w(ws), w(wi), &s2, Integrator::Simpson { divs }) / PerMeter4::new(1.0)
       });
+      let scale = simpson_abs_scale(&spdc, ws, wi, divs);
       ctx.k(
         "pm_coinc",
         &format!("{} {} {}", st, divs, tab),
-        &out.map(|z| cx(*z)).unwrap_or("PANIC".into()),
+        &match (out, scale) {
+          (Some(z), Some(sc)) => format!("{} {}", cx(*z), fl(sc)),
+          _ => "PANIC".into(),
+        },
       );
       // raw joint amplitude (inside / outside of the support as it comes)
       let s2 = spdc.clone();
       let out = guard(move || jsa_raw(w(ws), w(wi), &s2, Integrator::Simpson { divs }));
+      let alpha = pump_spectral_amplitude(w(ws) + w(wi), &spdc);
       ctx.k(
         "jsa_raw",
         &format!("{} {} {} {}", st, jsa_tokens(&spdc), divs, tab),
-        &out.map(cx).unwrap_or("PANIC".into()),
+        &match out {
+          Some(z) if z.re == 0.0 && z.im == 0.0 => format!("{} {}", cx(z), fl(0.0)),
+          Some(z) => match scale {
+            Some(sc) => format!("{} {}", cx(z), fl(alpha * sc)),
+            None => "PANIC".into(),
+          },
+          None => "PANIC".into(),
+        },
       );
       // normalisations
       let s2 = spdc.clone();
@@ -542,15 +574,247 @@ fn swap_tokens(s: &SPDC) -> String {
   )
 }
 
+/// `get_counts_correction` from the wavelengths, indices and group indices it reads
+fn counts_corr_case(ctx: &mut Ctx, spdc: &SPDC) {
+  let s = spdc.clone();
+  let r = guard(move || {
+    let cs = &s.crystal_setup;
+    let t = [
+      s.pump.vacuum_wavelength().value_unsafe,
+      s.signal.vacuum_wavelength().value_unsafe,
+      s.idler.vacuum_wavelength().value_unsafe,
+      *s.signal.refractive_index(s.signal.frequency(), cs),
+      *s.idler.refractive_index(s.idler.frequency(), cs),
+      *s.pump.refractive_index(s.pump.frequency(), cs),
+      *s.signal.group_index(cs, PeriodicPoling::Off),
+      *s.idler.group_index(cs, PeriodicPoling::Off),
+    ];
+    (t, spdcalc::get_counts_correction(&s))
+  });
+  if let Some((t, c)) = r {
+    ctx.k("counts_corr", &fls(&t), &fl(c));
+  }
+}
+
 fn swap_case(ctx: &mut Ctx, spdc: &SPDC) {
+  counts_corr_case(ctx, spdc);
   let sw = spdc.clone().with_swapped_signal_idler();
   ctx.k("swap", &swap_tokens(spdc), &swap_tokens(&sw));
+}
+
+
+// ------------------------------------------------------------------------------------------ C06
+
+fn rel_err_c(a: Complex<f64>, b: Complex<f64>) -> f64 {
+  let d = (a - b).norm();
+  if d == 0.0 {
+    0.0
+  } else {
+    d / a.norm().max(b.norm())
+  }
+}
+fn rel_err(a: f64, b: f64) -> f64 {
+  if a == b {
+    0.0
+  } else {
+    (a - b).abs() / a.abs().max(b.abs())
+  }
+}
+
+/// frequency grid around the centre of the setup covering the pump envelope
+fn small_grid(r: &mut Rng, spdc: &SPDC, n: usize) -> ((f64, f64, usize), (f64, f64, usize)) {
+  let ws0 = raw_w(spdc.signal.frequency());
+  let wi0 = raw_w(spdc.idler.frequency());
+  let sigma = raw_w(fwhm_to_spectral_width(spdc.pump.vacuum_wavelength(), spdc.pump_bandwidth));
+  let hs = sigma * r.range(0.5, 2.0);
+  let hi = sigma * r.range(0.5, 2.0);
+  ((ws0 - hs, ws0 + 0.9 * hs, n), (wi0 - 0.8 * hi, wi0 + hi, n))
+}
+
+/// the statement of C06 on the real code
+fn c06_cases(ctx: &mut Ctx) {
+  let opts = GenOpts { plane_wave: false, phase_matched: false };
+  let opts_pm = GenOpts { plane_wave: false, phase_matched: true };
+  let mut made = 0;
+  let mut tries = 0;
+  while made < ctx.n && tries < 30 * ctx.n + 100 {
+    tries += 1;
+    // two thirds phase-matched at the centre (so that amplitudes are not mere side-lobe residue)
+    let o = if tries % 3 == 0 { &opts } else { &opts_pm };
+    let spdc = match gen_setup(&mut ctx.rng, o) {
+      Some(s) => s,
+      None => {
+        ctx.count("c06/setup-rejected");
+        continue;
+      }
+    };
+    let swapped = spdc.clone().with_swapped_signal_idler();
+    let divs = *ctx.rng.pick(&[50usize, 20, 10, 50]);
+    let integ = Integrator::Simpson { divs };
+    let s1 = spdc.clone();
+    let s2 = swapped.clone();
+    let js = match guard(move || (s1.joint_spectrum(integ), s2.joint_spectrum(integ))) {
+      Some(j) => j,
+      None => {
+        // JointSpectrum::new unwraps try_as_optimum: C04/C17 territory
+        ctx.count("c06/joint-spectrum-unavailable");
+        continue;
+      }
+    };
+    made += 1;
+    count_setup(ctx, "c06", &spdc);
+    let desc = describe(&spdc);
+    // swap is an involution
+    let back = swapped.clone().with_swapped_signal_idler();
+    ctx.s("C06.involutive", back == spdc, "swap/involutive", &desc);
+
+    // amplitude (magnitude and phase) and intensity at frequency pairs
+    let v = view(&spdc).unwrap();
+    let vs = view(&swapped).unwrap();
+    for _ in 0..4 {
+      let (ws, wi) = gen_freqs(&mut ctx.rng, &spdc);
+      let (j1, j2) = (js.0.clone(), js.1.clone());
+      let r = guard(move || {
+        (j1.jsa(w(ws), w(wi)), j2.jsa(w(wi), w(ws)), j1.jsi(w(ws), w(wi)).value_unsafe, j2.jsi(w(wi), w(ws)).value_unsafe)
+      });
+      let det = format!("ws={:.17e} wi={:.17e} divs={} {}", ws, wi, divs, desc);
+      match r {
+        None => ctx.s("C06.jsa", false, "jsa/exchange/panic", &det),
+        Some((a, b, ia, ib)) => {
+          if a.norm() == 0.0 && b.norm() == 0.0 {
+            ctx.count("c06/jsa/zero-both");
+          } else if !(a.norm().is_finite() && b.norm().is_finite()) {
+            ctx.count("c06/jsa/non-finite");
+          } else {
+            ctx.count("c06/jsa/nonzero");
+          }
+          let e = rel_err_c(a, b);
+          // NaN/inf on both sides: nothing to compare (finiteness is C07's clause)
+          let fin = a.norm().is_finite() && b.norm().is_finite();
+          let tiny = a.norm() < 1e-290;
+          ctx.s(
+            "C06.jsa",
+            !fin || tiny || e <= 1e-6,
+            "jsa/exchange",
+            &format!("relerr={:e} a=({:e},{:e}) b=({:e},{:e}) {}", e, a.re, a.im, b.re, b.im, det),
+          );
+          let ei = rel_err(ia, ib);
+          let fin = ia.is_finite() && ib.is_finite();
+          ctx.s(
+            "C06.jsi",
+            !fin || ia.abs() < 1e-290 || ei <= 2.1e-6,
+            "jsi/exchange",
+            &format!("relerr={:e} a={:e} b={:e} {}", ei, ia, ib, det),
+          );
+          // correspondence of the normalisation layer with the model (both setups): jsa_raw is an input
+          if fin {
+            let s1 = spdc.clone();
+            if let Some(raw) = guard(move || jsa_raw(w(ws), w(wi), &s1, integ)) {
+              ctx.k(
+                "jsa",
+                &format!("{} {} {}", setup_tokens(&v, &spdc, ws, wi), jsa_tokens(&spdc), cx(raw)),
+                &format!("{} {}", cx(a), fl(ia)),
+              );
+            }
+            let s2 = swapped.clone();
+            if let Some(raw) = guard(move || jsa_raw(w(wi), w(ws), &s2, integ)) {
+              ctx.k(
+                "jsa",
+                &format!("{} {} {}", setup_tokens(&vs, &swapped, wi, ws), jsa_tokens(&swapped), cx(raw)),
+                &format!("{} {}", cx(b), fl(ib)),
+              );
+            }
+          }
+        }
+      }
+    }
+    swap_case(ctx, &spdc);
+
+    // rates and singles over a small grid (every other setup: they cost 2-D integrals)
+    if made % 2 == 0 {
+      let n = if ctx.thorough { 5 } else { 3 };
+      let (xs, yi) = small_grid(&mut ctx.rng, &spdc, n);
+      let range = FrequencySpace::new((w(xs.0), w(xs.1), xs.2), (w(yi.0), w(yi.1), yi.2));
+      let range_sw = FrequencySpace::new((w(yi.0), w(yi.1), yi.2), (w(xs.0), w(xs.1), xs.2));
+      let sdivs = 10usize;
+      let sinteg = Integrator::Simpson { divs: sdivs };
+      let det = format!(
+        "xs=({:.17e},{:.17e},{}) yi=({:.17e},{:.17e},{}) divs={} {}",
+        xs.0, xs.1, xs.2, yi.0, yi.1, yi.2, sdivs, desc
+      );
+      let (s1, s2) = (spdc.clone(), swapped.clone());
+      let r = guard(move || {
+        let cc = s1.counts_coincidences(range, sinteg).value_unsafe;
+        let cc_sw = s2.counts_coincidences(range_sw, sinteg).value_unsafe;
+        let si = s1.counts_singles_idler(range, sinteg).value_unsafe;
+        let ss_sw = s2.counts_singles_signal(range_sw, sinteg).value_unsafe;
+        let j1 = s1.joint_spectrum(sinteg);
+        let j2 = s2.joint_spectrum(sinteg);
+        let spec_i: Vec<f64> = j1.jsi_singles_idler_range(range).iter().map(|x| x.value_unsafe).collect();
+        let spec_s_sw: Vec<f64> = j2.jsi_singles_range(range_sw).iter().map(|x| x.value_unsafe).collect();
+        let corr = spdcalc::get_counts_correction(&s1);
+        let corr_sw = spdcalc::get_counts_correction(&s2);
+        (cc, cc_sw, si, ss_sw, spec_i, spec_s_sw, corr, corr_sw)
+      });
+      match r {
+        None => ctx.s("C06.rates", false, "rates/exchange/panic", &det),
+        Some((cc, cc_sw, si, ss_sw, spec_i, spec_s_sw, corr, corr_sw)) => {
+          // idler singles spectrum of S at (ws_k, wi_l) = signal singles spectrum of swap(S) at (wi_l, ws_k)
+          let mut worst = 0.0f64;
+          let mut nonzero = 0;
+          for k in 0..n {
+            for l in 0..n {
+              // range: x = ws index k (fast), y = wi index l ; range_sw: x = wi index l (fast), y = ws index k
+              let a = spec_i[l * n + k];
+              let b = spec_s_sw[k * n + l];
+              if a != 0.0 || b != 0.0 {
+                nonzero += 1;
+              }
+              if a.is_finite() && b.is_finite() {
+                worst = worst.max(rel_err(a, b));
+              }
+            }
+          }
+          ctx.count(if nonzero > 0 { "c06/singles-spectrum/nonzero" } else { "c06/singles-spectrum/all-zero" });
+          ctx.s(
+            "C06.idler_singles_spectrum",
+            worst <= 2.1e-6,
+            "singles-spectrum/exchange",
+            &format!("relerr={:e} nonzero={} {}", worst, nonzero, det),
+          );
+          // rates: invariant under the exchange; a deviation that is exactly the ratio of the two
+          // setups' `get_counts_correction` is tagged explained=1 (the spectra agree, the scalar
+          // correction factor is not exchange symmetric)
+          let ratio_corr = corr / corr_sw;
+          let e_cc = rel_err(cc, cc_sw);
+          let fin = cc.is_finite() && cc_sw.is_finite();
+          let expl = fin && rel_err(cc, cc_sw * ratio_corr) <= 1e-9;
+          ctx.s(
+            "C06.rates",
+            !fin || cc == 0.0 || e_cc <= 2.1e-6,
+            if !fin || cc == 0.0 || e_cc <= 2.1e-6 { "rates/exchange" } else { "rates/exchange/coincidences" },
+            &format!("relerr={:e} explained={} corr_ratio={:.12} cc={:e} cc_swapped={:e} {}", e_cc, expl as u8, ratio_corr, cc, cc_sw, det),
+          );
+          let e_si = rel_err(si, ss_sw);
+          let fin = si.is_finite() && ss_sw.is_finite();
+          let expl = fin && rel_err(si, ss_sw * ratio_corr) <= 1e-9;
+          ctx.s(
+            "C06.rates",
+            !fin || si == 0.0 || e_si <= 2.1e-6,
+            if !fin || si == 0.0 || e_si <= 2.1e-6 { "rates/exchange" } else { "rates/exchange/idler-singles" },
+            &format!("relerr={:e} explained={} corr_ratio={:.12} idler_singles={:e} signal_singles_swapped={:e} {}", e_si, expl as u8, ratio_corr, si, ss_sw, det),
+          );
+        }
+      }
+    }
+  }
 }
 
 pub fn run(ctx: &mut Ctx) {
   let mode = ctx.extra.first().cloned().unwrap_or_else(|| "k".to_string());
   match mode.as_str() {
     "k" => k_cases(ctx),
+    "c06" => c06_cases(ctx),
     _ => {}
   }
   let _ = (K, vacuum_wavelength_to_frequency(1e-6 * M), Steps2D((0., 1., 2), (0., 1., 2)));
